@@ -921,8 +921,9 @@ func (s *Store[K, V]) processSecondary() {
 			item.shard.mu.RUnlock(tk)
 			if err != nil {
 				s.secondaryCache.HandleAsyncError(err)
-				continue
 			}
+			// entry is already removed from policy, so it must be
+			// removed from map even if secondary cache set failed
 			if item.reason == EVICTED {
 				item.shard.mu.Lock()
 				deleted := item.shard.delete(item.entry)
